@@ -55,7 +55,7 @@ def gen_inputs(r, pk):
     n = r.randint(1, 5)
     names = r.sample(["Alpha", "Beta", "Gamma", "Delta", "Conf", "Model", "Node"], n)
     irs = [irgen.rand_ir(r, nparams=r.randint(1, 4), type_kinds=T, default_kinds=D, with_return=False, name=nm,
-                         doc_kinds=("plain", "plain", "plain", "long"))
+                         doc_kinds=("plain", "plain", "punct", "long"))
            for nm in names]
     for ir in irs:
         for p in ir["params"].values():
